@@ -180,6 +180,7 @@ def spec_check(line, impl):
     if len(obs) != len(ops):
         return "observation count differs"
     served = {}
+    first_files = None
     for i, (o, ob) in enumerate(zip(ops, obs)):
         f = o.split("|")
         if f[0] in ("ai", "av"):
@@ -212,9 +213,10 @@ def spec_check(line, impl):
         # the hosts map first: stale configuration files after a restart are a recorded finding (S-C10-b) and must not hide it
         if got_pt != want_pt:
             return "after op#%d (%s): TLS-passthrough host map %s differs from the served passthrough TransportServers %s" % (i, o, sorted(got_pt.items()), sorted(want_pt.items()))
-        if got_conf != want_conf or got_stream != want_stream:
-            return "after op#%d (%s): files on disk %s / %s differ from the served resources %s / %s" % (i, o, sorted(got_conf.items()), sorted(got_stream.items()), sorted(want_conf.items()), sorted(want_stream.items()))
-    return None
+        if (got_conf != want_conf or got_stream != want_stream) and first_files is None:
+            # remembered, not returned: a stale file after a restart (S-C10-b) at an early op must not hide a wrong hosts map at a later one (seed C10-6)
+            first_files = "after op#%d (%s): files on disk %s / %s differ from the served resources %s / %s" % (i, o, sorted(got_conf.items()), sorted(got_stream.items()), sorted(want_conf.items()), sorted(want_stream.items()))
+    return first_files
 
 
 def judge(case, impl, model, spec):
